@@ -26,7 +26,7 @@ def urlkey(plan):
     return json.dumps([plan['app'], plan['path'], plan.get('method', 'GET'), plan.get('qs', ''),
                        plan.get('ctype', ''), _mask(plan.get('body') or ''), plan.get('redirect_to', ''),
                        sorted((f['at'], f['exc']) for f in plan.get('faults') or ()), bool(plan.get('abandon')),
-                       bool(plan.get('rawqs'))])
+                       bool(plan.get('rawqs')), plan.get('mount', ''), plan.get('redirect_chain') or []])
 
 
 def _mask(s):
@@ -79,6 +79,9 @@ def deep_check(site, pristine, rec, full=False):
     into the record of the call that has just finished.  After every call: everything hanging on the mounted trees
     and the applications + the global config; `full`: classes, modules and the default toolbox as well."""
     now = S.deep_state(site, full)
+    for k, v in now.items():                 # a pipeline is built by the first call to its application: from then on
+        if k.endswith(' pipeline') and pristine.get(k) == 'unbuilt' and v != 'unbuilt':
+            pristine[k] = v                  # it is long-lived state like everything else
     if any(now[k] != pristine.get(k) for k in now) or (full and len(now) != len(pristine)):
         then = pristine if full else {k: pristine.get(k) for k in now}
         rec['deep_diff'] = diff_paths(json.loads(json.dumps(now, sort_keys=True)),
